@@ -117,3 +117,58 @@ def ccs_valid(A):
     if A.typecode not in ('d', 'z') or vals.typecode != A.typecode:
         return 'typecode mismatch %s/%s' % (A.typecode, vals.typecode)
     return None
+
+
+# ----------------------------------------------------------------------------- C-level module state
+
+class CState:
+    """Writable static data (.data/.bss symbols, static locals included) of the extension modules built
+    from the working tree.  A solver call that leaves different bytes there has changed global state
+    (e.g. a work array cached in a C static) — invisible to the Python-level snapshot, and harmful
+    exactly when two threads are inside GIL-released sections at once, which a scheduler that
+    serialises Python code cannot produce."""
+    IGNORE_SUFFIX = ('_tp', '_module', '_functions', '_methods', '_getsets')
+    IGNORE_PREFIX = ('doc_', 'completed.', 'kwlist.', '_', 'base_API', 'cvxopt_API')
+
+    def __init__(self, modules=('base', 'blas', 'lapack', 'misc_solvers')):
+        import ctypes
+        import subprocess
+        self.ctypes = ctypes
+        self.syms = []
+        maps = open('/proc/self/maps').read().split('\n')
+        for m in modules:
+            mod = sys.modules.get('cvxopt.' + m)
+            if mod is None:
+                continue
+            path = mod.__file__
+            base = None
+            for ln in maps:
+                if ln.endswith(path):
+                    f = ln.split()
+                    start = int(f[0].split('-')[0], 16)
+                    off = int(f[2], 16)
+                    if off == 0:
+                        base = start
+                        break
+            if base is None:
+                continue
+            out = subprocess.run(['nm', '-S', '--defined-only', path], stdout=subprocess.PIPE, text=True).stdout
+            for ln in out.split('\n'):
+                f = ln.split()
+                if len(f) != 4 or f[2] not in 'bBdD':
+                    continue
+                name = f[3]
+                if name.endswith(self.IGNORE_SUFFIX) or name.startswith(self.IGNORE_PREFIX):
+                    continue
+                size = int(f[1], 16)
+                if size == 0 or size > 65536:
+                    continue
+                self.syms.append((m + ':' + name, base + int(f[0], 16), size))
+
+    def snapshot(self):
+        sa = self.ctypes.string_at
+        return {name: sa(addr, size) for name, addr, size in self.syms}
+
+    @staticmethod
+    def diff(a, b):
+        return [k for k in a if a[k] != b.get(k)]
